@@ -5,6 +5,20 @@
 use super::{TokenSink, Tokenizer};
 
 #[derive(Debug, Clone, PartialEq, Eq, Hash)]
+pub struct VerifCharRef {
+    pub state: String,
+    pub in_attribute: bool,
+    pub addnl_allowed: Option<char>,
+    pub num: u32,
+    pub num_too_big: bool,
+    pub seen_digit: bool,
+    pub hex_marker: Option<char>,
+    pub name_buf: Option<String>,
+    pub name_match: Option<(u32, u32)>,
+    pub name_len: usize,
+}
+
+#[derive(Debug, Clone, PartialEq, Eq, Hash)]
 pub struct VerifTok {
     pub state: String,
     pub reconsume: bool,
@@ -12,7 +26,7 @@ pub struct VerifTok {
     pub ignore_lf: bool,
     pub discard_bom: bool,
     pub at_eof: bool,
-    pub char_ref: Option<String>,
+    pub char_ref: Option<VerifCharRef>,
     pub tag_kind: String,
     pub tag_name: String,
     pub self_closing: bool,
@@ -61,7 +75,7 @@ impl<Sink: TokenSink> Tokenizer<Sink> {
             ignore_lf: ignore_lf.get(),
             discard_bom: discard_bom.get(),
             at_eof: at_eof.get(),
-            char_ref: char_ref_tokenizer.borrow().as_ref().map(|c| format!("{c:?}")),
+            char_ref: char_ref_tokenizer.borrow().as_ref().map(|c| c.verif_fields()),
             tag_kind: format!("{:?}", current_tag_kind.get()),
             tag_name: current_tag_name.borrow().to_string(),
             self_closing: current_tag_self_closing.get(),
